@@ -178,7 +178,7 @@ fn gen_script(rng: &mut Rng, probes: &[Line]) -> Script {
 
 fn gen_failing(rng: &mut Rng, bound: &[(String, TV)]) -> Line {
     let fail = |text: String, event: &str| Line { text, event: Some(event.to_string()), declares: None, fails: true, parse_error: false };
-    match rng.below(13) {
+    match rng.below(16) {
         0 => fail("zz_unknown + 1".into(), "(expr err)"),
         1 => fail("1 + \"a\"".into(), "(expr err)"),
         2 if !bound.is_empty() => fail(format!("{} = 2", rng.pick(bound).0), "(expr err)"),
@@ -195,7 +195,18 @@ fn gen_failing(rng: &mut Rng, bound: &[(String, TV)]) -> Line {
             fail("output gg = x => x + zz_free".into(), &format!("(out-assign {} ok {} u)", wire::hs("gg"), v.wire()))
         }
         9 => fail("[1, 2] + [1]".into(), "(expr err)"),
-        10 if rng.chance(1, 6) => fail("boom = n => boom(n + 1)\nboom(0)".into(), "(expr ok) (expr panic)"),
+        10 if rng.chance(1, 3) => fail("boom = n => boom(n + 1)\nboom(0)".into(), "(expr ok) (expr err)"),
+        11 => {
+            // an output that contains NaN / ±inf is refused: exit 1, no object
+            let (src, v) = rng.pick(&[
+                ("inf", TV::Num(f64::INFINITY)),
+                ("0/0", TV::Num(f64::NAN)),
+                ("[1, -inf]", TV::List(vec![TV::Num(1.0), TV::Num(f64::NEG_INFINITY)])),
+                ("{k: [0/0]}", TV::Record(vec![("k".into(), TV::List(vec![TV::Num(f64::NAN)]))])),
+            ]).clone();
+            fail(format!("output nf = {}", src), &format!("(out-assign {} ok {} p)", wire::hs("nf"), v.wire()))
+        }
+        12 => fail("shadow = inputs => 1".into(), "(expr err)"),
         _ => {
             let text = rng.pick(&["x = = 3", "(1 + ", "output = 3", "1 +* 2", "]", "if 1 then 2", "output 5"]).to_string();
             Line { text, event: None, declares: None, fails: true, parse_error: true }
@@ -385,9 +396,9 @@ fn probe_lines(merged: &[(String, TV)], rng: &mut Rng) -> Vec<Line> {
     ls.push(ok_line(format!("hf = () => #{}", k), "(expr ok)"));
     ls.push(mk("h_fn", "output h_fn = hf()".into(), v.clone()));
     ls.push(mk("h_do", format!("output h_do = do {{\n  t = 1\n  return #{}\n}}", k), v.clone()));
-    ls.push(ok_line(format!("sh = inputs => [#{}, inputs.{}]", k, k), "(expr ok)"));
-    let shadow = TV::List(vec![TV::Str("shadow".into()), TV::Str("shadow".into())]);
-    ls.push(mk("h_sh", format!("output h_sh = sh({{{}: \"shadow\"}})", k), shadow));
+    // through two calls and a callback: `inputs` is handed down to every callee
+    ls.push(ok_line(format!("hg = x => [hf(), inputs.{}]", k), "(expr ok)"));
+    ls.push(mk("h_sh", "output h_sh = [0] via hg".into(), TV::List(vec![TV::List(vec![v.clone(), v.clone()])])));
     ls.push(mk("h_eq", format!("output h_eq = #{} .== inputs.{}", k, k), TV::Bool(true)));
     ls
 }
@@ -609,17 +620,32 @@ pub fn run(ctx: &Ctx, rep: &mut Report) {
     let mut model = Model::spawn(&ctx.model_path);
     let dir = scratch_dir("c19");
 
-    // fixed probes: every statement succeeds, so each declared name must be a key holding its value
+    // fixed probes around the two repaired defects (commits b646a47, afa129b)
     let decl = |text: &str, name: &str, v: TV, event: String| Script {
         lines: vec![Line { text: text.into(), event: Some(event), declares: Some((name.into(), v)), fails: false, parse_error: false }],
     };
+    let refused = |text: &str, event: String| Script {
+        lines: vec![Line { text: text.into(), event: Some(event), declares: None, fails: true, parse_error: false }],
+    };
+    let assign_ev = |n: &str, v: &TV| format!("(out-assign {} ok {} p)", wire::hs(n), v.wire());
+    let inf = TV::Num(f64::INFINITY);
+    let nan = TV::Num(f64::NAN);
+    let l_inf = TV::List(vec![TV::Num(1.0), inf.clone()]);
+    let r_nan = TV::Record(vec![("k".into(), nan.clone())]);
+    let f_inf = TV::Lambda("x => x + inf".into());
     let fixed: Vec<Script> = vec![
-        decl("output map", "map", TV::BuiltIn("map".into()), format!("(out-ident {} ok unbound)", wire::hs("map"))),
-        decl("output inf", "inf", TV::Num(f64::INFINITY), format!("(out-ident {} ok unbound)", wire::hs("inf"))),
-        decl("output constants", "constants", TV::Record(vec![]), format!("(out-ident {} ok unbound)", wire::hs("constants"))),
-        decl("output a = inf", "a", TV::Num(f64::INFINITY), format!("(out-assign {} ok {} p)", wire::hs("a"), TV::Num(f64::INFINITY).wire())),
-        decl("output a = 0/0", "a", TV::Num(f64::NAN), format!("(out-assign {} ok {} p)", wire::hs("a"), TV::Num(f64::NAN).wire())),
-        decl("output a = 1", "a", TV::Num(1.0), format!("(out-assign {} ok {} p)", wire::hs("a"), TV::Num(1.0).wire())),
+        // a name that evaluates without being a bound variable is emitted with that value
+        decl("output map", "map", TV::BuiltIn("map".into()), format!("(out-ident {} ok unbound {} p)", wire::hs("map"), TV::BuiltIn("map".into()).wire())),
+        decl("output constants", "constants", TV::Record(vec![]), format!("(out-ident {} ok unbound (record) p)", wire::hs("constants"))),
+        // NaN / ±inf anywhere in numbers, lists, records: refused, exit 1, no object
+        refused("output inf", format!("(out-ident {} ok unbound {} p)", wire::hs("inf"), inf.wire())),
+        refused("output a = inf", assign_ev("a", &inf)),
+        refused("output a = 0/0", assign_ev("a", &nan)),
+        refused("output a = [1, inf]", assign_ev("a", &l_inf)),
+        refused("output a = {k: 0/0}", assign_ev("a", &r_nan)),
+        // … but not inside the source text of a function
+        decl("output f = x => x + inf", "f", f_inf.clone(), assign_ev("f", &f_inf)),
+        decl("output a = 1", "a", TV::Num(1.0), assign_ev("a", &TV::Num(1.0))),
         Script { lines: vec![] },
         Script { lines: vec![ok_line("// nothing but a comment".into(), "(comment)")] },
     ];
@@ -720,8 +746,8 @@ fn split_two(s: &str) -> Vec<String> {
     out
 }
 
-/// `output constants`: evaluates (to the constants record) but `constants` is not a
-/// bound variable; only the presence of the key is checked
+/// `output constants`: evaluates to the constants record although `constants` is not a
+/// bound variable; the key must be there and hold a record (its members are not modelled)
 fn run_constants_probe(ctx: &Ctx, c: &Case, dir: &std::path::Path, rep: &mut Report) {
     let input = c.describe();
     let out = run_blots(&ctx.blots_bin, &[c.script.text()], None, dir);
@@ -729,7 +755,7 @@ fn run_constants_probe(ctx: &Ctx, c: &Case, dir: &std::path::Path, rep: &mut Rep
     rep.case(&input, true);
     match (out.code, jt::parse(&out.stdout)) {
         (Some(0), Some(j @ JT::Obj(_))) => {
-            if j.get("constants").is_none() {
+            if !matches!(j.get("constants"), Some(JT::Obj(_))) {
                 rep.finding("oracle", "output-missing", &input, &format!("declared output \"constants\" is not in the object {}", j.text()), "c19.output-missing");
             }
         }
